@@ -37,6 +37,11 @@ type pileCase struct {
 	ReAdd  []int   `json:"readd"`  // indices of pairs re-added (must be rejected)
 	ReFlip []bool  `json:"reflip"` // re-add in swapped orientation
 	Filter int     `json:"filter"` // score threshold of the filter used in the second Piles call
+	// PilePct parametrises a filter that looks at the piles of both images (as
+	// the filter in the package's own TestPiler does): a pair passes when each
+	// image covers at least PilePct percent of its pile. It is used on the
+	// FIRST Piles call of a fresh piler.
+	PilePct int `json:"pile_pct"`
 }
 
 var contigs = []pals.Contig{"c0", "c1", "c2"}
@@ -305,6 +310,44 @@ func check(c pileCase) *vlib.Failure {
 		return f
 	}
 
+	// order 3: a fresh piler whose first Piles call carries a filter that
+	// inspects the piles of both images of the pair. The expected verdict per
+	// pair is computed from the model components.
+	{
+		p3, pairs3, acc3, f := build(c, identity(len(c.Pairs)), nil)
+		if f != nil {
+			return f
+		}
+		exp3 := expected(c, acc3)
+		span := map[string]int{}
+		for _, cp := range exp3 {
+			for _, m := range cp.members {
+				span[m] = cp.to - cp.from
+			}
+		}
+		verdict := map[*pals.Pair]bool{}
+		for i, fp := range pairs3 {
+			if fp == nil {
+				continue
+			}
+			pt := c.Pairs[i]
+			verdict[fp] = (pt.A.E-pt.A.S)*100 >= c.PilePct*span[fmt.Sprintf("p%da", i)] &&
+				(pt.B.E-pt.B.S)*100 >= c.PilePct*span[fmt.Sprintf("p%db", i)]
+		}
+		covers := func(f *pals.Feature) bool {
+			pl, ok := f.Location().(*pals.Pile)
+			return ok && f.Len()*100 >= c.PilePct*pl.Len()
+		}
+		byPile := func(p *pals.Pair) bool { return covers(p.A) && covers(p.B) }
+		model := func(p *pals.Pair) bool { return verdict[p] }
+		if f := observe("order3/first-call-pile-filter", p3.Piles(byPile), pairs3, model, exp3); f != nil {
+			return f
+		}
+		if f := observe("order3/pile-filter-again", p3.Piles(byPile), pairs3, model, exp3); f != nil {
+			return f
+		}
+	}
+
 	// order 2: permuted insertion, optionally flipped orientation. The set of
 	// accepted pairs can differ only in which member of a duplicate group is
 	// kept; duplicates have equal coordinates, so the expected partition is the
@@ -374,6 +417,7 @@ func gen(t *rapid.T) pileCase {
 	c.ReAdd = rapid.SliceOfN(rapid.IntRange(0, n-1), 0, 3).Draw(t, "readd")
 	c.ReFlip = rapid.SliceOfN(rapid.Bool(), 1, 3).Draw(t, "reflip")
 	c.Filter = rapid.IntRange(0, 11).Draw(t, "filter")
+	c.PilePct = rapid.SampledFrom([]int{0, 30, 50, 80, 95, 100}).Draw(t, "pile-pct")
 	return c
 }
 
@@ -445,10 +489,40 @@ func classes(c pileCase) []string {
 	if len(c.ReAdd) > 0 {
 		l = append(l, "re-add")
 	}
+	// the pile-aware filter separates pairs (some pass, some do not) and some
+	// pair has its images on two locations
+	if c.PilePct > 0 {
+		span := map[string]int{}
+		for _, cp := range exp {
+			for _, m := range cp.members {
+				span[m] = cp.to - cp.from
+			}
+		}
+		pass, fail, cross := 0, 0, false
+		for i, pt := range c.Pairs {
+			if !acc[i] {
+				continue
+			}
+			if (pt.A.E-pt.A.S)*100 >= c.PilePct*span[fmt.Sprintf("p%da", i)] && (pt.B.E-pt.B.S)*100 >= c.PilePct*span[fmt.Sprintf("p%db", i)] {
+				pass++
+			} else {
+				fail++
+				if pt.A.C != pt.B.C {
+					cross = true
+				}
+			}
+		}
+		if pass > 0 && fail > 0 {
+			l = append(l, "pile-filter-splits")
+		}
+		if cross {
+			l = append(l, "pile-filter-rejects-cross-location-pair")
+		}
+	}
 	return l
 }
 
 func TestPiles(t *testing.T) {
 	vlib.Run(t, vlib.Prop[pileCase]{Name: "piles-vs-union-find", Checks: 5000, Thorough: 480000, Gen: gen, Check: check, Classes: classes,
-		MinFrac: map[string]float64{"chained-component": 0.15, "duplicate-pair": 0.1, "abutting-features": 0.3, "zero-length-feature": 0.2}})
+		MinFrac: map[string]float64{"chained-component": 0.15, "duplicate-pair": 0.1, "abutting-features": 0.3, "zero-length-feature": 0.2, "pile-filter-splits": 0.2, "pile-filter-rejects-cross-location-pair": 0.2}})
 }
